@@ -240,6 +240,10 @@ def tensor_item(interp: Any, t: SymTensor) -> SV:
     if t.val.is_const():
         return _const_of(t)
     f = z3.Function("item", T, z3.RealSort())
+    if len(t.val.terms) == 1:
+        # ASSUMED: item() of a 0-dim tensor is linear:  item(c * t) == c * item(t)
+        term, c = t.val.terms[0]
+        return SV(z3.simplify(c * f(term)), "real")
     return SV(f(tz.materialise(interp.ctx, t.val)), "real")
 
 
